@@ -1,6 +1,7 @@
 package props
 
 import (
+	"encoding/json"
 	"fmt"
 	"math"
 	"testing"
@@ -29,7 +30,17 @@ func TestC06(t *testing.T) {
 		if err != nil {
 			rt.Fatalf("harness: %v", err)
 		}
-		probe := val.Run(c, prep)
+		// (the measuring run is guarded like the validated ones below: a run that never returns is a violation)
+		var probe *val.Report
+		probed := make(chan *val.Report, 1)
+		go func() { probed <- val.Run(c, prep) }()
+		select {
+		case probe = <-probed:
+		case <-time.After(20 * time.Second):
+			msg := fmt.Sprintf("Execute did not return within 20 s with MaxCycle=%d: the run neither reached quiescence nor the cycle limit\n--- rules ---\n%s", c.MaxCycle, gast.RulesString(c.Rules))
+			path := col.Violation("C06", "C06/execute_did_not_return", msg, toRSCase(c))
+			rt.Fatalf("C06 violated: %s (replay %s)", msg, path)
+		}
 		k := probe.Firings
 		choice := rapid.IntRange(0, 8).Draw(rt, "budget_choice")
 		var mc int
@@ -124,4 +135,17 @@ func TestC06(t *testing.T) {
 	})
 }
 
-func init() { registerRSReplayer("C06") }
+func init() {
+	registerRSReplayer("C06")
+	inner := replayers["C06"]
+	replayers["C06"] = func(raw json.RawMessage) error {
+		done := make(chan error, 1)
+		go func() { done <- inner(raw) }()
+		select {
+		case err := <-done:
+			return err
+		case <-time.After(30 * time.Second):
+			return fmt.Errorf("Execute did not return within 30 s")
+		}
+	}
+}
